@@ -154,7 +154,7 @@ def proxyObs (c : PCase) : Sx :=
     -- when the service closes the connection the pump stops by itself; its exit status is 0 (end of
     -- stream) or 1 (reset, the service left input unread) depending on a race the harness folds into
     -- one token
-    let svcClosed := !early && (match o.status with | .err => true | _ => false)
+    let svcClosed := match o.status with | .err => true | _ => false
     .list [.atom "obs", bridgedSx,
            .list [.atom "exit", .atom (if svcClosed then "closed-by-service" else "0")], directSx, .atom "-",
            .list [.atom "upseen", .atom "-", .atom "-"]]
